@@ -653,6 +653,8 @@ class Engine:
             return self.set_of_list(v, ctx)
         if isinstance(v.ty, TSet):
             return v
+        if isinstance(v.ty, TDict):
+            return V(TSet(v.ty.k), v.ty.has(v.t))     # set(d): the key set
         if isinstance(v.ty, TBag):
             st = TSet(v.ty.elem)
             s = fresh('setofbag', st.sort())
@@ -660,6 +662,42 @@ class Engine:
             ctx.assume(z3.ForAll([t], z3.Select(s, t) == (z3.Select(v.t, t) > 0)))
             return V(st, s)
         raise OutOfSubset(f'set({v.ty})')
+
+    def bi_Counter(self, n, ctx, ev):
+        """collections.Counter(list): an uninterpreted multiset abstraction MS(list value); Counter(a) == Counter(b) is
+        equality of the abstractions (LC-COUNTER).  Only ==/!= are modelled on the result."""
+        v = ev.unwrap_opt(ev.ev(n.args[0], ctx), ctx)          # Counter(None) raises TypeError
+        if not isinstance(v.ty, (TList, TAbs)):
+            raise OutOfSubset(f'Counter({v.ty})')
+        rt = TAbs('Multiset_' + v.ty.name.replace('[', '_').replace(']', '').replace(',', '_'))
+        f_ = z3.Function('MS_' + rt.name, v.ty.sort(), rt.sort())
+        self.libs_used.add('LC-COUNTER: Counter(x) is a function of the list value x; Counter equality is multiset equality '
+                           '(order-insensitive) -- the abstraction MS is uninterpreted, element hashing / __eq__ of Mod and Interval are trusted')
+        if isinstance(v.ty, TList):
+            # the abstraction depends on the elements only (not on the array beyond the length): extensionally equal lists
+            # have the same multiset
+            a, b = z3.Const('msA', v.ty.sort()), z3.Const('msB', v.ty.sort())
+            k = z3.Const('msk', z3.IntSort())
+            ext = z3.And(v.ty.n(a) == v.ty.n(b),
+                         z3.ForAll([k], z3.Implies(z3.And(0 <= k, k < v.ty.n(a)),
+                                                   z3.Select(v.ty.arr(a), k) == z3.Select(v.ty.arr(b), k))))
+            ctx.assume(z3.ForAll([a, b], z3.Implies(ext, f_(a) == f_(b)), patterns=[z3.MultiPattern(f_(a), f_(b))]))
+        return V(rt, f_(v.t))
+
+    def meth_keys(self, recv, n, ctx, ev):
+        if isinstance(recv.ty, TDict) and not n.args:
+            return V(TSet(recv.ty.k), recv.ty.has(recv.t))     # a dict's key view, as a set value
+        raise OutOfSubset(f'.keys() on {recv.ty}')
+
+    def meth_union(self, recv, n, ctx, ev):
+        if isinstance(recv.ty, TSet) and len(n.args) == 1:
+            o = ev.ev(n.args[0], ctx)
+            if isinstance(o.ty, TSet) and o.ty.elem == recv.ty.elem:
+                x = fresh('u', recv.ty.elem.sort())
+                r = fresh('union', recv.ty.sort())
+                ctx.assume(z3.ForAll([x], z3.Select(r, x) == z3.Or(z3.Select(recv.t, x), z3.Select(o.t, x))))
+                return V(recv.ty, r)
+        raise OutOfSubset(f'.union on {recv.ty}')
 
     def bi_sorted(self, n, ctx, ev):
         if n.keywords:
@@ -702,6 +740,8 @@ class Engine:
         table = {'int': INT, 'float': REAL, 'str': STR, 'bool': BOOL}
         if isinstance(v.ty, TAbs):
             return mk_bool(tn == v.ty.name)
+        if isinstance(v.ty, TRec) and self.ctors.get(tn) == v.ty.name:
+            return mk_bool(True)       # a parameter typed as the record IS an instance of its class (contract `params`)
         if isinstance(v.ty, TRec) and v.ty.name in self.unions:
             # a union-typed value (e.g. Mod.val : str | int | float): record with a `kind` tag
             kinds = self.unions[v.ty.name]
